@@ -298,6 +298,8 @@ func Purity(w *load.World, c *core.Collector) {
 							for k := range ssax.Prov(r.Results[0]) {
 								switch {
 								case k == "const", strings.HasPrefix(k, "param:"), strings.HasPrefix(k, "field:"), strings.HasPrefix(k, "call:cmp.Compare"), strings.HasPrefix(k, "call:strings.Compare"):
+								case strings.HasPrefix(k, "elem(freevar:") && indexedOnlyByParams(cmpFn, strings.TrimSuffix(strings.TrimPrefix(k, "elem(freevar:"), ")")):
+									// an index sort: the operands are positions in a captured table of scores
 								default:
 									bad = append(bad, k)
 								}
@@ -655,8 +657,8 @@ func Route(w *load.World, c *core.Collector) {
 		}
 	}
 	c.Count("dest_initialisers", nDest)
-	if nDest < 13 {
-		c.Add("ROUTE", "anchor:dest", core.Undecided, "", fmt.Sprintf("found %d Dest initialisers, expected at least 13", nDest), "C13", "C17")
+	if nDest < 2 {
+		c.Add("ROUTE", "anchor:dest", core.Undecided, "", fmt.Sprintf("found %d Dest initialisers, expected at least 2", nDest), "C13", "C17")
 	}
 	// every call passes c.Servers itself and topK 1; Servers is only stored in NewNode
 	for _, f := range w.Fns {
@@ -763,10 +765,23 @@ func Fanout(w *load.World, c *core.Collector) {
 				if !ok || sl.High == nil {
 					continue
 				}
-				if p, _ := ssax.Path(sl.High); strings.Contains(p, "sr") && strings.HasSuffix(strings.TrimSuffix(p, "*"), ".Limit") {
+				hiV := sl.High
+				if mc, ok := hiV.(*ssa.Call); ok {
+					// results[:min(len(results), limit)]
+					if bi, ok := mc.Call.Value.(*ssa.Builtin); ok && bi.Name() == "min" && len(mc.Call.Args) == 2 {
+						for i, a := range mc.Call.Args {
+							if lc, ok := a.(*ssa.Call); ok {
+								if lb, ok := lc.Call.Value.(*ssa.Builtin); ok && lb.Name() == "len" {
+									hiV = mc.Call.Args[1-i]
+								}
+							}
+						}
+					}
+				}
+				if p, _ := ssax.Path(hiV); strings.Contains(p, "sr") && strings.HasSuffix(strings.TrimSuffix(p, "*"), ".Limit") {
 					// must be the load that precedes every store to sr.Limit
 					okTrunc = true
-					if hi, ok := sl.High.(ssa.Instruction); ok {
+					if hi, ok := hiV.(ssa.Instruction); ok {
 						for _, bb := range f.Blocks {
 							for _, ii := range bb.Instrs {
 								if st, ok := ii.(*ssa.Store); ok {
@@ -1188,7 +1203,14 @@ func Transfer(w *load.World, c *core.Collector) {
 				}
 			}
 		}
-		if rec == nil || shards == nil {
+		if tbl, bad, ok := phaseTable(w, sy, "syncUserCollections", "syncShards"); ok && (rec == nil || shards == nil) {
+			// the phases are rows of a table that a loop runs through
+			if bad != "" {
+				c.Add("TRANSFER", "sync:both-phases", core.Violation, w.At(tbl), bad, props...)
+			} else {
+				c.Add("TRANSFER", "sync:both-phases", core.OK, w.At(tbl), "", props...)
+			}
+		} else if rec == nil || shards == nil {
 			c.Add("TRANSFER", "sync:both-phases", core.Violation, w.Position(sy.Pos()), "Sync does not run both the record phase and the shard phase", props...)
 		} else {
 			// once the record phase has run, every success exit has also run the shard phase
@@ -1677,6 +1699,17 @@ func Lifecycle(w *load.World, c *core.Collector) {
 	}
 	// RemoveAll after un-registration in DeleteCollectionShards
 	if f := findFn(w, "(*cluster.ShardManager).DeleteCollectionShards"); f != nil {
+		// the removal may live in a helper that purges one shard
+		f = homeOf(f, func(g *ssa.Function) bool {
+			for _, b := range g.Blocks {
+				for _, in := range b.Instrs {
+					if call, ok := in.(*ssa.Call); ok && call.Call.StaticCallee() != nil && call.Call.StaticCallee().String() == "os.RemoveAll" {
+						return true
+					}
+				}
+			}
+			return false
+		})
 		var rm, del ssa.Instruction
 		for _, b := range f.Blocks {
 			for _, in := range b.Instrs {
@@ -2203,4 +2236,190 @@ func condBinOp(v ssa.Value, depth int) (bo *ssa.BinOp, neg bool, ok bool) {
 		return condBinOp(ret.Results[0], depth+1)
 	}
 	return nil, false, false
+}
+
+// indexedOnlyByParams: the captured variable name of the literal is only ever read as
+// table[p] with p one of the literal's own parameters, and never written.
+func indexedOnlyByParams(lit *ssa.Function, name string) bool {
+	var fv *ssa.FreeVar
+	for _, v := range lit.FreeVars {
+		if v.Name() == name {
+			fv = v
+		}
+	}
+	if fv == nil {
+		return false
+	}
+	isParam := func(v ssa.Value) bool {
+		_, ok := peelToParam(v).(*ssa.Parameter)
+		return ok
+	}
+	var okUses func(v ssa.Value, depth int) bool
+	okUses = func(v ssa.Value, depth int) bool {
+		if depth > 3 || v.Referrers() == nil {
+			return false
+		}
+		for _, r := range *v.Referrers() {
+			switch x := r.(type) {
+			case *ssa.UnOp:
+				if x.Op != token.MUL {
+					return false
+				}
+				if _, isSlice := x.Type().Underlying().(*types.Slice); isSlice {
+					if !okUses(x, depth+1) {
+						return false
+					}
+				}
+				// a load of an element: a read
+			case *ssa.IndexAddr:
+				if !isParam(x.Index) {
+					return false
+				}
+				for _, rr := range *x.Referrers() {
+					if u, ok := rr.(*ssa.UnOp); !ok || u.Op != token.MUL {
+						return false
+					}
+				}
+			case *ssa.Index:
+				if !isParam(x.Index) {
+					return false
+				}
+			case *ssa.DebugRef:
+			default:
+				return false
+			}
+		}
+		return true
+	}
+	return okUses(fv, 0)
+}
+
+// phaseTable: f calls a function value taken from the rows of a slice literal that holds the
+// bound methods named by want, inside a loop over the whole literal. bad describes a way to a
+// success exit that leaves the loop other than by exhausting the table.
+func phaseTable(w *load.World, f *ssa.Function, want ...string) (site ssa.Instruction, bad string, ok bool) {
+	for _, b := range f.Blocks {
+		for _, in := range b.Instrs {
+			call, isCall := in.(*ssa.Call)
+			if !isCall || call.Call.IsInvoke() || call.Call.StaticCallee() != nil {
+				continue
+			}
+			// walk back from the callee value to the table it is read from
+			var lit *ssa.Alloc
+			var sl *ssa.Slice
+			v := call.Call.Value
+			for i := 0; i < 10 && v != nil && lit == nil; i++ {
+				switch x := v.(type) {
+				case *ssa.UnOp:
+					v = x.X
+				case *ssa.Alloc:
+					v = ssax.SingleStore(x)
+				case *ssa.FieldAddr:
+					v = x.X
+				case *ssa.Field:
+					v = x.X
+				case *ssa.IndexAddr:
+					v = x.X
+				case *ssa.Slice:
+					sl = x
+					if al, isAl := x.X.(*ssa.Alloc); isAl {
+						lit = al
+					}
+					v = nil
+				default:
+					v = nil
+				}
+			}
+			if lit == nil || sl == nil || sl.Low != nil || sl.High != nil {
+				continue
+			}
+			// the bound methods stored in the rows
+			have := map[string]bool{}
+			var walk func(addr ssa.Value, depth int)
+			walk = func(addr ssa.Value, depth int) {
+				if depth > 3 || addr.Referrers() == nil {
+					return
+				}
+				for _, r := range *addr.Referrers() {
+					switch x := r.(type) {
+					case *ssa.IndexAddr:
+						walk(x, depth+1)
+					case *ssa.FieldAddr:
+						walk(x, depth+1)
+					case *ssa.Store:
+						if x.Addr != addr {
+							continue
+						}
+						if mc, isMC := x.Val.(*ssa.MakeClosure); isMC {
+							have[strings.TrimSuffix(mc.Fn.Name(), "$bound")] = true
+						}
+						if fn, isFn := x.Val.(*ssa.Function); isFn {
+							have[fn.Name()] = true
+						}
+						// a row built in a temporary and copied in whole
+						if ld, isLd := x.Val.(*ssa.UnOp); isLd && ld.Op == token.MUL {
+							if tmp, isAl := ld.X.(*ssa.Alloc); isAl {
+								walk(tmp, depth+1)
+							}
+						}
+					}
+				}
+			}
+			walk(lit, 0)
+			all := true
+			for _, n := range want {
+				if !have[n] {
+					all = false
+				}
+			}
+			if !all {
+				continue
+			}
+			// the loop around the call: blocks on a cycle with it
+			inLoopSet := map[*ssa.BasicBlock]bool{}
+			for _, bb := range f.Blocks {
+				if bb == b || (ssax.Reaches(b, bb) && ssax.Reaches(bb, b)) {
+					inLoopSet[bb] = true
+				}
+			}
+			if len(inLoopSet) < 2 {
+				return call, "the phase table is not run through by a loop", true
+			}
+			succ := map[*ssa.BasicBlock]bool{}
+			for _, ex := range successExits(f) {
+				succ[ex.In.Block()] = true
+			}
+			reachesSuccess := func(from *ssa.BasicBlock) bool {
+				for sb := range succ {
+					if from == sb || ssax.Reaches(from, sb) {
+						return true
+					}
+				}
+				return false
+			}
+			for bb := range inLoopSet {
+				for i, sc := range bb.Succs {
+					if inLoopSet[sc] {
+						continue
+					}
+					// the exhaustion test "index < len(table)"
+					exhausted := false
+					if ifi, isIf := bb.Instrs[len(bb.Instrs)-1].(*ssa.If); isIf && i == 1 {
+						if bo, isBo := ifi.Cond.(*ssa.BinOp); isBo && bo.Op == token.LSS {
+							if lc, isLen := bo.Y.(*ssa.Call); isLen {
+								if bi, isBi := lc.Call.Value.(*ssa.Builtin); isBi && bi.Name() == "len" && lc.Call.Args[0] == ssa.Value(sl) {
+									exhausted = true
+								}
+							}
+						}
+					}
+					if !exhausted && reachesSuccess(sc) {
+						return call, "Sync can report success after leaving the loop over its phases early (" + w.Position(sc.Instrs[0].Pos()) + "): a phase is skipped", true
+					}
+				}
+			}
+			return call, "", true
+		}
+	}
+	return nil, "", false
 }
